@@ -128,6 +128,11 @@ def eval_level_s(prop, batches, known):
                 if prop == 'C03' and isinstance(im.get('obs'), dict):
                     res['conformanceEvaluated'] = res.get('conformanceEvaluated', 0) + 1
                     ob = im['obs']
+                    if str(ob.get('conformPanic', '')).startswith('NewFloat(NaN)'):
+                        # a Terraform number cannot hold NaN: the FRAMEWORK's Float64.ToTerraformValue panics in big.NewFloat, whatever
+                        # the generated code wrote - struct values with a NaN float are outside what the acceptance test can judge
+                        res['conformanceNaNSkipped'] = res.get('conformanceNaNSkipped', 0) + 1
+                        ob = {}
                     bad = [k for k in ('conformPanic', 'toTerraformValue', 'valueFromTerraform') if k in ob]
                     bad += [k for k in ('typeEqual', 'fullyKnown') if ob.get(k) is False]
                     if bad and not (cr.get('triggers') and any(t in known for t in cr['triggers'])):
